@@ -132,8 +132,12 @@ impl LocoTrait for ConventionalLoco {
             self.fc.state.pwr_out_max,
             Some(pwr_aux.with_context(|| format_dbg!("`pwr_aux` not provided"))?),
         )?;
-        self.edrv
-            .set_cur_pwr_max_out(self.gen.state.pwr_elec_prop_out_max, None)?;
+        // aux load may exceed what the engine can deliver in this step (`pwr_elec_prop_out_max < 0`);
+        // that is not a negative tractive limit
+        self.edrv.set_cur_pwr_max_out(
+            self.gen.state.pwr_elec_prop_out_max.max(si::Power::ZERO),
+            None,
+        )?;
         self.gen
             .set_pwr_rate_out_max(self.fc.pwr_out_max / self.fc.pwr_ramp_lag);
         self.edrv
